@@ -1,14 +1,21 @@
 (** Mirror of the cached-proof maintenance code of prove.go: [Proof.Update]
     ([updateProofRemove], [getNewPositions], [updateProofAdd], [maybeRemap]) and [Proof.Undo]
     ([undoAdd] (the method), [pruneEdges], [moveDownPositions], [undoDel] (the method),
-    [deTwinHashAndPos]) with the [hashAndPos] helpers they use.
+    [deTwinHashAndPos]) with the [hashAndPos] helpers they use.  The entry points are
+    [proof_update] and [proof_undo]; the oracle re-computes every call of the C07/C08 harness runs
+    with them (event [PU] of oracle/main.ml).
 
     Conventions
     - a Go [hashAndPos] (two parallel slices) is a list of pairs [hp H]; [toHashAndPos] of two slices
-      of different lengths (undefined / panicking in Go) yields [None];
-    - slices that Go mutates in place are returned; loops that index a slice while it is re-sorted
-      inside the body ([undoDel]) are recursions on the index over the current list;
-    - [sort.Sort] on a [hashAndPos] is [sortK] (stable);
+      of different lengths yields [None].  (Go does not always panic there: [sort.Sort] only swaps
+      what is out of order and the merge helpers copy the two slices independently, so the Go code
+      can go on with mis-aligned positions and hashes; the mirror does not follow it into that.
+      The same holds for [calculateHashes] of Model/Verify.v, which [undoDel] calls.)
+    - slices that Go mutates in place are returned; loops that index a slice while the body
+      re-sorts or replaces it ([undoDel]) are recursions on the index over the current list(s);
+    - [sort.Sort] on a [hashAndPos] is [sortK] (stable).  Go's sort is not stable, so for more than
+      12 entries with *equal positions* the order of their hashes can differ; equal positions do
+      not occur in honest runs;
     - the map-keyed helpers ([removeHashesFromHashAndPos], [getHashAndPosHashSubset]) are filters
       with [op_eqb];
     - an error or a panic of the Go code is [None]. *)
